@@ -198,7 +198,9 @@ class C09(Prop):
                  "for caller mutations) + vm_compute correspondence against the real SqliteDatabase")
     RULE = ("operation sequences (8-40 ops) over 1-3 rows per table: add_*, update_* (every updatable column, JSON "
             "columns with nested values, empty update), cached getters called positionally and by keyword, uncached "
-            "read paths (get_workflow, get_execution, get_port_from_token, get_workflow_ports/steps), and a caller "
+            "read paths (get_workflow, get_execution, get_port_from_token, get_workflow_ports/steps, get_workflows_by_name; "
+            "oracle only: add_dependency/add_provenance with get_input/output_ports, get_input/output_steps, "
+            "get_dependees/dependers, get_port_tokens), and a caller "
             "mutating rows it was given (top-level and nested set/append/delete). Non-trivial = at least two reads "
             "and at least one update or mutation. Plus (oracle only, outside the model and the sequential quantifier) "
             "race cases: 1-3 reads and 1-2 updates of one row run concurrently under a seeded permuting event loop, then a "
@@ -372,7 +374,31 @@ class C09(Prop):
                 if (t, i) in rows:
                     handles.append((t, i))
             elif r < 0.75:
-                via = rng.choice(["port_from_token", "workflow_ports", "workflow_steps"])
+                via = rng.choice(["port_from_token", "workflow_ports", "workflow_steps", "workflows_by_name", "rel", "rel"])
+                if via == "rel":
+                    # the relation tables (dependency, provenance): uncached controls, judged by the oracle only
+                    k = rng.randrange(4)
+                    if k == 0 and n["step"] and n["port"]:
+                        ops.append({"o": "dep", "step": rng.randrange(1, n["step"] + 1), "port": rng.randrange(1, n["port"] + 1),
+                                    "type": rng.randrange(2), "name": self._str(rng)})
+                    elif k == 1 and n["token"]:
+                        ops.append({"o": "prov", "inputs": [rng.randrange(1, n["token"] + 1) for _ in range(rng.randrange(1, 3))],
+                                    "token": rng.randrange(1, n["token"] + 1)})
+                    elif k == 2 and (n["step"] or n["port"]):
+                        f = rng.choice(["get_input_ports", "get_output_ports"] if n["step"] else ["get_input_steps"])
+                        if f.endswith("steps") and not n["port"]:
+                            continue
+                        f = rng.choice([f, "get_input_steps", "get_output_steps"]) if n["port"] else f
+                        ops.append({"o": "relget", "fn": f, "id": rng.randrange(1, (n["port"] if f.endswith("steps") else n["step"]) + 1)})
+                    elif k == 3 and n["token"]:
+                        ops.append({"o": "relget", "fn": rng.choice(["get_dependees", "get_dependers", "get_port_tokens"]),
+                                    "id": rng.randrange(1, n["token"] + 1)})
+                    continue
+                if via == "workflows_by_name":
+                    i = rng.randrange(1, n["workflow"] + 1)
+                    ops.append({"o": "fresh", "via": via, "name": rows[("workflow", i)]["name"], "t": "workflow", "id": i})
+                    handles.append(("workflow", i))
+                    continue
                 if via == "port_from_token":
                     cands = [i for (tt, i), rw in rows.items() if tt == "token" and rw["port"] is not None]
                     if not cands:
@@ -467,6 +493,11 @@ class C09(Prop):
         via = op["via"]
         if via == "port_from_token":
             return dict(await db.get_port_from_token(op["token"]))
+        if via == "workflows_by_name":
+            for r in await db.get_workflows_by_name(op["name"]):
+                if r["id"] == i:
+                    return dict(r)
+            raise LookupError("no such row")
         rows = await (db.get_workflow_ports(op["wf"]) if via == "workflow_ports" else db.get_workflow_steps(op["wf"]))
         for r in rows:
             if r["id"] == i:
@@ -507,6 +538,26 @@ class C09(Prop):
                             row = await self._read(db, op)
                             handles.append(row)
                             got = {"row": enc(row)}
+                        except Exception as e:  # noqa
+                            got = {"err": type(e).__name__}
+                        outs.append({"got": got, "ref": want})
+                    elif o == "dep":
+                        from streamflow.core.persistence import DependencyType
+                        await db.add_dependency(op["step"], op["port"], DependencyType(op["type"]), op["name"])
+                        outs.append({"ok": True})
+                    elif o == "prov":
+                        await db.add_provenance(op["inputs"], op["token"])
+                        outs.append({"ok": True})
+                    elif o == "relget":
+                        async with db.connection as c:
+                            await c.commit()
+                        rd = lambda r: [x if isinstance(x, int) else dict(x) for x in r]
+                        try:
+                            want = {"row": enc(rd(await getattr(ref, op["fn"])(op["id"])))}
+                        except Exception as e:  # noqa
+                            want = {"err": type(e).__name__}
+                        try:
+                            got = {"row": enc(rd(await getattr(db, op["fn"])(op["id"])))}
                         except Exception as e:  # noqa
                             got = {"err": type(e).__name__}
                         outs.append({"got": got, "ref": want})
@@ -630,7 +681,7 @@ class C09(Prop):
         if i is not None:
             op, o = case["ops"][i], obs["outs"][i]
             return ("read-differs-from-uncached",
-                    f"op #{i} {op['o']} {op['t']} id={op['id']}{' (by keyword)' if op.get('kw') else ''} returned "
+                    f"op #{i} {op['o']} {op.get('t', op.get('fn'))} id={op['id']}{' (by keyword)' if op.get('kw') else ''} returned "
                     f"{json.dumps(o['got'])[:300]} but an uncached database returns {json.dumps(o['ref'])[:300]}")
         return None
 
@@ -641,7 +692,11 @@ class C09(Prop):
             return clause
         i = self._first_bad(obs)
         op = case["ops"][i]
-        before = case["ops"][:i]
+        if op["o"] == "relget":
+            return f"{clause}/relation/{op['fn']}"
+        before = [b for b in case["ops"][:i] if b["o"] not in ("dep", "prov", "relget")]
+        obs = {**obs, "outs": [o for b, o in zip(case["ops"], obs["outs"]) if b["o"] not in ("dep", "prov", "relget")]}
+        i = len(before)
         nested = any(b["o"] == "mut" and not (len(b["p"]) == 1 and b["m"] in ("set", "del")) for b in before)
         updated = any(b["o"] == "upd" and b["t"] == op["t"] and b["id"] == op["id"] for b in before)
         # a stale answer = exactly what the uncached database answered to an earlier read of the same row
@@ -671,6 +726,8 @@ class C09(Prop):
         ops, outs = [], []
         for op, o in zip(case["ops"], obs["outs"]):
             k = op["o"]
+            if k in ("dep", "prov", "relget"):
+                continue          # relation tables: no cache, not in the model; they create no caller-held row
             if k == "add":
                 cols = [f"({coq_str(c)}, {coq_jv(v)})" for c, v in spec_row(op["t"], op["a"])]
                 ops.append(f"Add {TCOQ[op['t']]} {coq_list(cols)}")
@@ -708,7 +765,7 @@ class C09(Prop):
         if case["f"] == "race":
             return True
         ops = case["ops"]
-        return sum(o["o"] in ("get", "fresh") for o in ops) >= 2 and any(o["o"] in ("upd", "mut") for o in ops)
+        return sum(o["o"] in ("get", "fresh", "relget") for o in ops) >= 2 and any(o["o"] in ("upd", "mut") for o in ops)
 
     def shrink(self, case):
         if case["f"] == "race":
@@ -745,7 +802,8 @@ C09.LEVEL_TEXT = (
 C09.LEVEL_NOTE = (
     "Partial: reads that pass the id by keyword are excluded from the coherence theorem (refuted, listed as a known "
     "finding); concurrent get/update interleavings are outside the sequences quantified over and outside the model -- "
-    "they are exercised (race cases) and a cold-cache get racing an update does leave a stale entry (known finding). Trusted: Coq kernel + "
+    "they are exercised (race cases); the cold-cache get/update race they found is fixed (f4717ad: getters and updates "
+    "run under one lock, the atomicity the model assumes) and those cases must pass. Trusted: Coq kernel + "
     "vm_compute; the hand-written model DbCache/Model.v; SQLite/aiosqlite/cachebox/json/deepcopy. No axioms.")
 
 PROP = C09()
